@@ -88,12 +88,17 @@ def gen_test_data(rng, est, kind, with_z, T):
         Y = rng.poisson(2.0, (T, 1)).astype(float)
         if with_z and dep:
             Y = Y + Z[:, :1]
+        if rng.random() < 0.4:                  # counts handed over with the integer dtype NumPy's generators return
+            X, Y = X.astype(np.int64), Y.astype(np.int64)
+            Z = None if Z is None else Z.astype(np.int64)
     else:
         X = rng.standard_normal((T, 1))
         Z = rng.standard_normal((T, int(rng.integers(1, 3)))) if with_z else None
         Y = rng.standard_normal((T, 1))
         if with_z and dep:
             Y = Y + 0.8 * Z[:, :1]
+    if rng.random() < 0.06:                     # a dead channel: the predictor is constant, every surrogate ties with the observed value
+        X = np.full_like(X, X[0, 0])
     return X, Y, Z, dep
 
 
